@@ -191,6 +191,12 @@ func prepareHost(tb report.TB, dir string, c c15Case) {
 		must(RunGit(dir, "commit", "-q", "-am", "second"))
 		must(RunGit(dir, "update-ref", "refs/notes/commits", "HEAD"))
 		must(RunGit(dir, "update-ref", "refs/remotes/origin/main", "HEAD~1"))
+		// host branches whose names merely begin like git-bug's namespaces, local and remote-tracking
+		for _, b := range []string{"bugs-triage", "bugsnag/integration", "identities-rework"} {
+			must(RunGit(dir, "branch", b, "HEAD~1"))
+			must(RunGit(dir, "update-ref", "refs/remotes/origin/"+b, "HEAD~1"))
+		}
+		must(RunGit(dir, "update-ref", "refs/remotes/upstream/bugs", "HEAD~1")) // a branch called "bugs" on another remote
 		if c.Head == "detached" {
 			must(RunGit(dir, "checkout", "-q", "--detach", "HEAD~1"))
 		}
